@@ -73,7 +73,11 @@ def membership_facts(prog, body, ix):
                     inner = [x for x in (is_membership(prog, cb, tt, ix) for _, tt in cb.calls()) if x is not None]
                     if inner:
                         found = True
-                        fields |= address_fields_in(describe(prog, body, ct["args"][0]), ix)
+                        recv_ = describe(prog, body, ct["args"][0])
+                        fields |= address_fields_in(recv_, ix)
+                        # every element of the collection is tested (no skip / take / last / rev in front of `any`)
+                        if not [c2 for c2 in core.desc_calls(recv_) if core.re.search(r"::(skip|take|skip_while|take_while|step_by|last|first|nth|filter|rev|chain|zip|peekable)$", c2[1])]:
+                            fields.add("chain")
         if found:
             out[s] = fields
     return out
@@ -108,8 +112,9 @@ def loop_membership(prog, body, ix, mem):
         if tests:
             # every cycle of the loop passes one of the tests
             if core.must_pass(body, [nb], [nb], through_nodes=tests) is None:
+                whole = not [c2 for c2 in core.desc_calls(recv) if core.re.search(r"::(skip|take|skip_while|take_while|step_by|last|first|nth|filter|rev|chain|zip)$", c2[1])]
                 for e in some_edges(prog, body, nb, "None"):
-                    out[e[0]] = fields
+                    out[e[0]] = set(fields) | ({"chain"} if whole else set())
     return out
 
 
@@ -164,7 +169,7 @@ def wrapper_summaries(chk, prog, ix):
                     chk.ob("R1.wrapper", p, "Some(response) is the 403", forb, f"wrapper returns {core.short(str(d))[:80]}", where=b.where(sb))
                     ok_some = ok_some and forb
         out[p] = fields
-        chk.ob("R1.wrapper", p, f"returns None only when not listed (tests fields {sorted(fields)})", bool(fields), "", where=b.file)
+        chk.ob("R1.wrapper", p, f"returns None only when not listed (tests fields {sorted(map(str, fields))})", bool(fields), "", where=b.file)
     return out
 
 
@@ -239,10 +244,12 @@ def address_cases(chk, prog, ix, tested):
         for label, sf in cases.items():
             ok = bool(fields & sf)
             chk.ob("R4.peer_covered", HANDLERS[kind], f"{label}: the blacklist test covers a field holding the socket peer",
-                   ok, f"the {kind} handler tests Address fields {[names[i] for i in sorted(fields)]} but in this case the connecting peer is only in "
+                   ok, f"the {kind} handler tests Address fields {[names[i] for i in sorted(x for x in fields if isinstance(x, int))]} but in this case the connecting peer is only in "
                        f"{[names[i] for i in sorted(sf)]}: a listed client that sends 'X-Forwarded-For: <unlisted address>' is served", where="")
         chk.ob("R4.origin_covered", HANDLERS[kind], "the blacklist test covers origin_addr (forwarded-for client)", names.index("origin_addr") in fields,
                "a request forwarded on behalf of a listed address would be served")
+        chk.ob("R4.chain_covered", HANDLERS[kind], "the blacklist test covers every address of the forwarded chain (all of address.proxies)", "chain" in fields,
+               "only some elements of the X-Forwarded-For chain are tested (e.g. proxies.last()): a request relayed through a listed hop that is not the last entry is served")
 
 
 ADDR_REWRITE = (r"(Ipv6Addr::to_ipv4|Ipv6Addr::to_ipv4_mapped|Ipv4Addr::to_ipv6_mapped|Ipv4Addr::to_ipv6_compatible|IpAddr::to_canonical|Ipv6Addr::to_canonical|"
